@@ -1,2 +1,141 @@
-(** C15 — proofs (in progress). *)
-From V Require Import Base.Util Gql.Ast C15.Model C15.Spec.
+(** C15 proofs, part 4: consequences, refutations of the unguarded statement, non-vacuity. *)
+From V Require Import Base.Util Gql.Ast C15.Model C15.Spec C15.Proofs1 C15.Proofs2 C15.Proofs3.
+
+(* ------------------------------------------------------------------------------------------ *)
+(** * the JSON route accepts every standard introspection result, whatever the key style *)
+
+Theorem json_route_total st meta M : exists Sj, json_route (introspect st meta M) = Ok Sj.
+Proof. eexists. apply json_route_introspect_of. Qed.
+
+Theorem json_route_style_irrelevant meta M : json_route (introspect Full meta M) = json_route (introspect Minimal meta M).
+Proof. unfold introspect. now rewrite !json_route_introspect_of. Qed.
+
+(* ------------------------------------------------------------------------------------------ *)
+(** * documents with parser-like positions *)
+
+(** give every schema definition a non built-in position (what the parser does); nothing else changes *)
+Definition reposition_sd (sd : schemadef) : schemadef :=
+  mkSchemaDef (sd_desc sd) (mkPos 0 0 0 false) (sd_dirs sd) (sd_ops sd).
+Definition reposition (D : tsdoc) : tsdoc :=
+  map (fun d => match d with TSSchema sd => TSSchema (reposition_sd sd) | _ => d end) D.
+
+Lemma reposition_types n D : find_typedef n (reposition D) = find_typedef n D.
+Proof.
+  induction D as [|d D IH]; cbn [reposition map find_typedef]; [reflexivity|]. fold (reposition D).
+  destruct d as [sd|t|dd|se|te]; auto. destruct (str_eqb n (iname (typedef_name t))); auto.
+Qed.
+Lemma reposition_dirs n D : find_dirdef n (reposition D) = find_dirdef n D.
+Proof.
+  induction D as [|d D IH]; cbn [reposition map find_dirdef]; [reflexivity|]. fold (reposition D).
+  destruct d as [sd|t|dd|se|te]; auto. destruct (str_eqb n (iname (dd_name dd))); auto.
+Qed.
+Lemma reposition_schema_defs D : schema_defs (reposition D) = map reposition_sd (schema_defs D).
+Proof.
+  induction D as [|d D IH]; cbn [reposition map schema_defs]; [reflexivity|]. fold (reposition D).
+  destruct d as [sd|t|dd|se|te]; cbn [map]; now rewrite ?IH.
+Qed.
+Lemma doc_equiv_reposition D : doc_equiv (reposition D) D /\ parsed_positions (reposition D).
+Proof.
+  unfold doc_equiv, parsed_positions. rewrite reposition_schema_defs. repeat split.
+  - rewrite map_map. apply map_ext. reflexivity.
+  - intros n. now rewrite reposition_types.
+  - intros n. now rewrite reposition_dirs.
+  - apply Forall_forall. intros sd Hin. apply in_map_iff in Hin as [x [<- _]]. reflexivity.
+Qed.
+
+(* ------------------------------------------------------------------------------------------ *)
+(** * non-vacuity: a model with every kind of type satisfies the guard *)
+
+Definition ex_model : smodel :=
+  mkModel (Some (s "the schema"))
+    [ mkMType (s "Q") (Some (s "root")) (MObject []
+        [ mkMField (s "node") None [mkMArg (s "id") (Some (s "which")) (GNonNull (GNamed (s "ID"))) None None;
+                                    mkMArg (s "n") None (GNamed (s "Int")) (Some (s "3")) (Some None)]
+                   (GNamed (s "Node")) (Some (Some (s "old")));
+          mkMField (s "all") None [mkMArg (s "f") None (GNamed (s "Filter")) None None]
+                   (GNonNull (GList (GNonNull (GNamed (s "Item"))))) None;
+          mkMField (s "u") None [] (GNamed (s "U")) None ]);
+      mkMType (s "Node") None (MInterface [] [mkMField (s "id") None [] (GNonNull (GNamed (s "ID"))) None]);
+      mkMType (s "Item") None (MObject [s "Node"]
+        [ mkMField (s "id") None [] (GNonNull (GNamed (s "ID"))) None;
+          mkMField (s "color") (Some (s "c")) [] (GNamed (s "Color")) (Some None);
+          mkMField (s "at") None [] (GNamed (s "Date")) None ]);
+      mkMType (s "U") None (MUnion [s "Item"]);
+      mkMType (s "Color") None (MEnum [mkMVal (s "RED") None None; mkMVal (s "GREEN") (Some (s "g")) (Some (Some (s "use RED")))]);
+      mkMType (s "Filter") None (MInput [mkMArg (s "colors") None (GList (GNamed (s "Color"))) (Some (s "[RED]")) None;
+                                          mkMArg (s "sub") None (GNamed (s "Filter")) None (Some (Some (s "flat")))]);
+      mkMType (s "Date") (Some (s "a date")) MScalar;
+      mkMType (s "M") None (MObject [] [mkMField (s "touch") None [] (GNamed (s "Boolean")) None]) ]
+    [ mkMDir (s "tag") (Some (s "d")) [mkMArg (s "name") None (GNonNull (GNamed (s "String"))) None None] true [s "FIELD"; s "QUERY"] ]
+    (s "Q") (Some (s "M")) None true.
+
+Example ex_model_ok : model_ok ex_model = true.
+Proof. reflexivity. Qed.
+
+Example routes_agree_instance :
+  exists Sj, json_route (introspect Minimal true ex_model) = Ok Sj
+             /\ schema_equiv_on (vis_of ex_model) Sj (ast_to_type_system (reposition (sdl_doc ex_model))).
+Proof.
+  destruct (doc_equiv_reposition (sdl_doc ex_model)) as [He Hp].
+  exact (routes_agree Minimal true ex_model _ ex_model_ok He Hp).
+Qed.
+
+(** ... and the compared names are not trivial: every type of the model and the referenced built-in scalars *)
+Example ex_model_vis :
+  forallb (vis_of ex_model) (map mt_name (m_types ex_model) ++ [s "ID"; s "Int"; s "String"; s "Boolean"]) = true
+  /\ vis_of ex_model (s "Float") = false /\ vis_of ex_model (s "__Type") = false.
+Proof. repeat split; reflexivity. Qed.
+
+(* ------------------------------------------------------------------------------------------ *)
+(** * the unguarded statement is false for the current code *)
+
+(** (1) a schema definition that leaves `mutation` out while a type is called Mutation: the JSON route still
+        resolves mutation operations (its root node is built-in, i.e. "implicit"), the SDL route does not *)
+Definition shadow_model : smodel :=
+  mkModel None
+    [ mkMType (s "Query") None (MObject [] [mkMField (s "a") None [] (GNamed (s "Int")) None]);
+      mkMType (s "Mutation") None (MObject [] [mkMField (s "a") None [] (GNamed (s "Int")) None]) ]
+    [] (s "Query") None None true.
+
+Lemma shadow_root_refuted :
+  exists M D Sj,
+    dirs_ok M = true /\ implicit_roots_ok M = true /\ roots_ok M = true /\ desc_ok M = true
+    /\ doc_equiv D (sdl_doc M) /\ parsed_positions D
+    /\ json_route (introspect Full false M) = Ok Sj
+    /\ root_type Sj Mutation = Some (s "Mutation")
+    /\ root_type (ast_to_type_system D) Mutation = None.
+Proof.
+  exists shadow_model, (reposition (sdl_doc shadow_model)), (json_schema (listed_types false shadow_model) shadow_model).
+  destruct (doc_equiv_reposition (sdl_doc shadow_model)) as [He Hp].
+  repeat match goal with |- _ /\ _ => split end; try assumption; try apply json_route_introspect_of; try reflexivity.
+Qed.
+
+(** (2) a built-in scalar the schema does not reference exists on the SDL route only *)
+Definition tiny_model : smodel :=
+  mkModel None [ mkMType (s "Query") None (MObject [] [mkMField (s "a") None [] (GNamed (s "String")) None]) ]
+    [] (s "Query") None None false.
+
+Lemma unreferenced_builtin_refuted :
+  exists M D Sj,
+    model_ok M = true /\ doc_equiv D (sdl_doc M) /\ parsed_positions D
+    /\ json_route (introspect Full true M) = Ok Sj
+    /\ get_type Sj (s "Float") = None
+    /\ get_type (ast_to_type_system D) (s "Float") <> None.
+Proof.
+  exists tiny_model, (reposition (sdl_doc tiny_model)), (json_schema (listed_types true tiny_model) tiny_model).
+  destruct (doc_equiv_reposition (sdl_doc tiny_model)) as [He Hp].
+  repeat match goal with |- _ /\ _ => split end; try assumption; try apply json_route_introspect_of; try reflexivity; discriminate.
+Qed.
+
+(** (3) the introspection types listed by the result are ordinary schema types on the JSON route *)
+Lemma meta_types_refuted :
+  exists M D Sj,
+    model_ok M = true /\ doc_equiv D (sdl_doc M) /\ parsed_positions D
+    /\ json_route (introspect Full true M) = Ok Sj
+    /\ get_type Sj (s "__Schema") <> None
+    /\ get_type (ast_to_type_system D) (s "__Schema") = None.
+Proof.
+  exists tiny_model, (reposition (sdl_doc tiny_model)), (json_schema (listed_types true tiny_model) tiny_model).
+  destruct (doc_equiv_reposition (sdl_doc tiny_model)) as [He Hp].
+  repeat match goal with |- _ /\ _ => split end; try assumption; try apply json_route_introspect_of; try reflexivity; discriminate.
+Qed.
